@@ -1459,6 +1459,15 @@ def check(res, prop, tier, n_quick, n_thorough, extra_programs=(), twins=False, 
 
 
 def replay(prop, path):
+    first = [l.strip() for l in open(path) if l.strip() and not l.startswith('#')]
+    if first and first[0].startswith('alloc'):
+        sec = first[0].split()[1:2]
+        r = subprocess.run([C.build_harness('alloc', 'plain', ['alloc.cpp'])] + sec, capture_output=True, text=True)
+        badl = [l for l in r.stdout.split('\n') if l.startswith('zero ') and not l.endswith('allocs=0 ok=1')]
+        print('\n'.join(badl[:60]))
+        print('%d cell(s) with allocations' % len(badl))
+        print('VIOLATION reproduced' if badl else 'no difference')
+        return 1 if badl else 0
     if open(path).read().find('pipe --comb') >= 0:
         r = subprocess.run([harness(), '--comb'], capture_output=True, text=True)
         print(r.stdout)
